@@ -46,6 +46,19 @@ except Exception:   # noqa
     LIB_RAISES = []
 
 
+class Unprintable(Exception):
+    """an exception that cannot be turned into text (its message is built from an event whose data has no JSON form, say):
+    whoever catches a predicate's exception has no business formatting it"""
+
+    def __str__(self):
+        raise TypeError('this exception has no text')
+
+    __repr__ = __str__
+
+
+RAISES.append(Unprintable)
+
+
 def raise_class(n):
     """the n-th exception class a harness predicate raises: builtin classes and the library's own, alternating"""
     if n % 2 and LIB_RAISES:
@@ -230,10 +243,14 @@ def mk_pattern(spec):
 
 def _mk_pattern(spec):
     blocks = []
+    made = {}       # a block written once and used at several positions (`[first] + [reading] * 3`) is ONE object
     for (g, fl, preds) in spec['blocks']:
-        blocks.append(BoboPatternBlock(
-            predicates=[mk_pred(p) for p in preds], group=grp(g),
-            strict=fl[0] == '1', loop=fl[1] == '1', negated=fl[2] == '1', optional=fl[3] == '1'))
+        key = (g, fl, tuple(preds))
+        if key not in made:
+            made[key] = BoboPatternBlock(
+                predicates=[mk_pred(p) for p in preds], group=grp(g),
+                strict=fl[0] == '1', loop=fl[1] == '1', negated=fl[2] == '1', optional=fl[3] == '1')
+        blocks.append(made[key])
     pre = [mk_pred(p) for p in spec.get('pre', [])]
     halt = [mk_pred(p) for p in spec.get('halt', [])]
     pat = BoboPattern(name=spec['name'], blocks=blocks, preconditions=pre, haltconditions=halt,
